@@ -16,17 +16,17 @@ import (
 )
 
 type thread struct {
-	id      int
-	resume  chan struct{}
-	label   string
-	enabled func() bool
-	done    bool
-	started bool
-	virtual bool
-	alias   int
-	obj     any
-	daemon  bool // does not keep Run alive (harness pseudo-threads: environment events)
-	waitLock any // the lock the thread is parked in front of (Lock)
+	id       int
+	resume   chan struct{}
+	label    string
+	enabled  func() bool
+	done     bool
+	started  bool
+	virtual  bool
+	alias    int
+	obj      any
+	daemon   bool // does not keep Run alive (harness pseudo-threads: environment events)
+	waitLock any  // the lock the thread is parked in front of (Lock)
 }
 
 // Step is one element of the lock-step trace.
@@ -46,8 +46,8 @@ type Sched struct {
 	Snapshot func() any
 	// SnapshotStep, if set, is used instead of Snapshot and is told which step just ran.
 	SnapshotStep func(real int, label string, obj any) any
-	locks    map[any]bool
-	Deadlock bool
+	locks        map[any]bool
+	Deadlock     bool
 	// chooser picks among enabled thread ids; returns the chosen id
 	choose   func(enabled []int, last int) int
 	Choices  []Choice
@@ -182,7 +182,7 @@ func YO[F any](label string, obj any, f F) F {
 // Lock / Unlock replace (*sync.Mutex).Lock/Unlock (and the write side of RWMutex).
 func Lock(m sync.Locker, label string) {
 	if cur == nil || cur.current == nil {
-		m.Lock()
+		realLock(m, label)
 		return
 	}
 	s := cur
@@ -209,7 +209,63 @@ func Unlock(m sync.Locker) {
 			delete(s.holders, m)
 		}
 	}
+	realMu.Lock()
+	delete(realHeld, m)
+	realMu.Unlock()
 	m.Unlock()
+}
+
+// ---- bookkeeping of instrumented locks taken for real (no controlled scheduler): which call site holds a lock,
+// which call sites are blocked in front of it. A watchdog of a real-time harness reads it with RealLockReport.
+
+var (
+	realMu   sync.Mutex
+	realHeld = map[sync.Locker]string{}         // lock -> label of the call that took it
+	realWait = map[sync.Locker]map[string]int{} // lock -> label of the blocked call -> goroutines
+)
+
+func realLock(m sync.Locker, label string) {
+	realMu.Lock()
+	w := realWait[m]
+	if w == nil {
+		w = map[string]int{}
+		realWait[m] = w
+	}
+	w[label]++
+	realMu.Unlock()
+	m.Lock()
+	realMu.Lock()
+	if w[label]--; w[label] <= 0 {
+		delete(w, label)
+		if len(w) == 0 {
+			delete(realWait, m)
+		}
+	}
+	realHeld[m] = label
+	realMu.Unlock()
+}
+
+// RealLockWait is one instrumented lock that goroutines are blocked in front of right now.
+type RealLockWait struct {
+	Name      string         // lock expression, e.g. "s.actorOfLock"
+	HeldSince string         // label of the call that holds it ("" if it is not held through an instrumented call)
+	Waiters   map[string]int // label of the blocked call -> number of goroutines
+}
+
+// RealLockReport lists the instrumented locks with blocked callers (real execution, no controlled scheduler).
+func RealLockReport() []RealLockWait {
+	realMu.Lock()
+	defer realMu.Unlock()
+	var out []RealLockWait
+	for m, w := range realWait {
+		r := RealLockWait{HeldSince: realHeld[m], Waiters: map[string]int{}}
+		for l, n := range w {
+			r.Waiters[l] = n
+			r.Name = lockName(l)
+		}
+		out = append(out, r)
+	}
+	return out
 }
 
 // LockWaits describes, for every unfinished thread parked in front of a controlled lock, which lock it wants,
